@@ -89,23 +89,41 @@ fn with_sweep<T>(f: impl FnOnce(&SweepTable) -> T) -> T {
     })
 }
 
-/// Length of the systematic part per tier: thorough enumerates every (image, field, value),
-/// quick the first 50 000 of them (the first images of the list).
+/// Length of the systematic part per tier: thorough enumerates every (image, field, value) and
+/// every (image, leaf box, size value, count value) pair; quick the first 50 000 singles and the
+/// first 10 000 pairs.
 pub fn sweep_len(tier: crate::runner::Tier) -> u64 {
+    single_len(tier) + pair_len(tier)
+}
+
+fn single_len(tier: crate::runner::Tier) -> u64 {
     match tier {
         crate::runner::Tier::Quick => sweep_total().min(50_000),
         crate::runner::Tier::Thorough => sweep_total(),
     }
 }
 
-/// Number of cases of the systematic sweep (all images; the quick tier runs a prefix).
+fn pair_len(tier: crate::runner::Tier) -> u64 {
+    match tier {
+        crate::runner::Tier::Quick => pair_total().min(10_000),
+        crate::runner::Tier::Thorough => pair_total(),
+    }
+}
+
+/// Number of cases of the systematic single-field sweep (all images; quick runs a prefix).
 pub fn sweep_total() -> u64 {
     with_sweep(|t| t.total)
 }
 
-/// Case `i` of the sweep: image, field and value by mixed radix. A (field, value) slot whose
-/// value equals the current one or repeats another slot degenerates to a no-fault run.
-pub fn sweep_case(i: u64) -> CorruptCase {
+pub fn pair_total() -> u64 {
+    with_pairs(|t| t.total)
+}
+
+pub fn sweep_case(i: u64, tier: crate::runner::Tier) -> CorruptCase {
+    let sl = single_len(tier);
+    if i >= sl {
+        return pair_case(i - sl);
+    }
     with_sweep(|t| {
         let i = i % t.total.max(1);
         let (spec, base, fields) = t.images.iter().rev().find(|(_, b, _)| *b <= i).expect("sweep table");
@@ -118,6 +136,76 @@ pub fn sweep_case(i: u64) -> CorruptCase {
             None => (vec![], vec![]),
         };
         let split = matches!(spec, SeedSpec::Frag { .. } | SeedSpec::CannedFrag) && (k / SWEEP_VALUES) % 2 == 0;
+        CorruptCase { seed: spec.clone(), faults, labels, split, init_faults: vec![], late: None, extra_ids: vec![], sweep: true }
+    })
+}
+
+// ---- coordinated pairs: the size of a leaf box and one of its leading words inflated together
+// (a count that is validated against the box's own size passes the check when both lie) ----
+
+const PAIR_SIZES: [u64; 4] = [0, 0x0010_0000, 0x7FFF_FFFF, 0xFFFF_FFFF]; // 0 = "twice the current size + 64"
+const PAIR_COUNTS: [u64; 5] = [0x1_0000, 0x10_0000, 0x7FFF_FFFF, 0xFFFF_FFFF, 0]; // 0 = "twice the current value + 1"
+const PAIR_WORDS: [usize; 3] = [0, 4, 8];
+const PAIRS_PER_BOX: u64 = (PAIR_SIZES.len() * PAIR_COUNTS.len() * PAIR_WORDS.len()) as u64;
+
+struct PairTable {
+    /// (image, cumulative case count before it, leaf boxes: (start, body, span, path))
+    images: Vec<(SeedSpec, u64, Vec<(u64, u64, u64, String)>)>,
+    total: u64,
+}
+
+thread_local! {
+    static PAIRS: std::cell::OnceCell<PairTable> = const { std::cell::OnceCell::new() };
+}
+
+fn with_pairs<T>(f: impl FnOnce(&PairTable) -> T) -> T {
+    PAIRS.with(|c| {
+        let t = c.get_or_init(|| {
+            let mut images = Vec::new();
+            let mut total = 0u64;
+            for spec in sweep_images() {
+                let img = build(&spec).bytes;
+                let nodes = crate::boxtree::walk(&img);
+                let leaves: Vec<(u64, u64, u64, String)> = nodes
+                    .iter()
+                    .filter(|n| n.kids.is_none() && !(n.depth == 0 && n.is(b"mdat")) && n.end() <= img.len() && n.size >= n.hdr + 8)
+                    .map(|n| (n.start as u64, n.body() as u64, (n.size - n.hdr) as u64, n.path.clone()))
+                    .collect();
+                let n = leaves.len() as u64 * PAIRS_PER_BOX;
+                images.push((spec, total, leaves));
+                total += n;
+            }
+            PairTable { images, total }
+        });
+        f(t)
+    })
+}
+
+pub fn pair_case(i: u64) -> CorruptCase {
+    with_pairs(|t| {
+        let i = i % t.total.max(1);
+        let (spec, base, leaves) = t.images.iter().rev().find(|(_, b, _)| *b <= i).expect("pair table");
+        let k = i - base;
+        let (start, body, span, path) = &leaves[(k / PAIRS_PER_BOX) as usize];
+        let j = k % PAIRS_PER_BOX;
+        let wi = (j % PAIR_WORDS.len() as u64) as usize;
+        let ci = ((j / PAIR_WORDS.len() as u64) % PAIR_COUNTS.len() as u64) as usize;
+        let si = (j / (PAIR_WORDS.len() * PAIR_COUNTS.len()) as u64) as usize;
+        let word = PAIR_WORDS[wi] as u64;
+        let mut faults = Vec::new();
+        let mut labels = Vec::new();
+        if word + 4 <= *span {
+            let img = build(spec).bytes;
+            let cur_size = crate::indep::be32(&img, *start as usize) as u64;
+            let cur_word = crate::indep::be32(&img, (*body + word) as usize) as u64;
+            let sv = if PAIR_SIZES[si] == 0 { (cur_size * 2 + 64) & 0xFFFF_FFFF } else { PAIR_SIZES[si] };
+            let cv = if PAIR_COUNTS[ci] == 0 { (cur_word * 2 + 1) & 0xFFFF_FFFF } else { PAIR_COUNTS[ci] };
+            faults.push(StorageFault::SetField { off: *start, width: 4, val: sv });
+            faults.push(StorageFault::SetField { off: *body + word, width: 4, val: cv });
+            labels.push(format!("{path}:size"));
+            labels.push(format!("{path}:w{word}"));
+        }
+        let split = matches!(spec, SeedSpec::Frag { .. } | SeedSpec::CannedFrag) && (k / PAIRS_PER_BOX) % 2 == 0;
         CorruptCase { seed: spec.clone(), faults, labels, split, init_faults: vec![], late: None, extra_ids: vec![], sweep: true }
     })
 }
